@@ -239,7 +239,7 @@ fn counted_names(p: &Program) -> Vec<String> {
     v
 }
 
-pub fn check_program(rep: &mut Report, name: &str, p: &Program, count_all: bool, depth: usize, max_paths: usize) {
+pub fn check_program(rep: &mut Report, name: &str, p: &Program, count_all: bool, depth: usize, max_paths: usize, sig_prefix: &str) {
     let src = render::program(p);
     let json = match compile(&src, count_all) {
         Ok(j) => j,
@@ -297,11 +297,47 @@ pub fn check_program(rep: &mut Report, name: &str, p: &Program, count_all: bool,
                 }
             }
             rep.violation(
-                &format!("differs-from-language-rules/{a}"),
+                &format!("{sig_prefix}differs-from-language-rules/{a}"),
                 json!({"program": name, "count_all_visits": count_all, "choices_taken": run.choices, "difference": v.detail, "source": src}),
             );
         }
     }
+}
+
+/// Hand-written programs for layouts the generator does not write (each has its own signature prefix).
+pub fn probes() -> Vec<(&'static str, Program)> {
+    use crate::r#gen::ast::{Choice, Inline, Knot, Stmt, Target};
+    let t = |s: &str| Inline::Text(s.to_string());
+    let choice = |start: Vec<Inline>, only: Option<Vec<Inline>>, end: Vec<Inline>, body: Vec<Stmt>| {
+        Stmt::Choice(Choice { sticky: false, label: None, conds: vec![], start, choice_only: only, end, divert: None, body })
+    };
+    let line = |s: &str| Stmt::Line(vec![Inline::Text(s.to_string())], None);
+    let knot = |name: &str, body: Vec<Stmt>| Knot { name: name.into(), kind: KnotKind::Flow, params: vec![], body, stitches: vec![] };
+    let prog = |body: Vec<Stmt>| Program { globals: vec![], lists: vec![], externals: vec![], root: vec![Stmt::Divert(Target::Named("k0".into()))], knots: vec![knot("k0", body)] };
+    vec![
+        // no spaces around the brackets: the parts are joined exactly as written
+        (
+            "tight-brackets",
+            prog(vec![
+                line("first line"),
+                choice(vec![t("alpha")], Some(vec![]), vec![t("beta")], vec![line("body one")]),
+                choice(vec![t("gamma")], Some(vec![t("delta")]), vec![t("epsilon")], vec![line("body two")]),
+                Stmt::Gather(None, vec![t("gathered")], None),
+                Stmt::Divert(Target::End),
+            ]),
+        ),
+        // the same with the usual spacing (control: must agree)
+        (
+            "spaced-brackets",
+            prog(vec![
+                line("first line"),
+                choice(vec![t("alpha ")], Some(vec![]), vec![t("beta")], vec![line("body one")]),
+                choice(vec![t("gamma ")], Some(vec![t("delta")]), vec![t(" epsilon")], vec![line("body two")]),
+                Stmt::Gather(None, vec![t("gathered")], None),
+                Stmt::Divert(Target::End),
+            ]),
+        ),
+    ]
 }
 
 pub fn run(cfg: &Cfg) -> i32 {
@@ -315,6 +351,17 @@ pub fn run(cfg: &Cfg) -> i32 {
     let nprog = cfg.get_u64("programs", cfg.pick(360, 32000));
     let depth = cfg.get_u64("depth", cfg.pick(5, 8)) as usize;
     let max_paths = cfg.get_u64("paths", cfg.pick(40, 250)) as usize;
+    if cfg.mine(0) {
+        for (pname, p) in probes() {
+            let name = format!("probe-{pname}");
+            rep.journal_start(&name);
+            rep.count("probes");
+            for count_all in [false, true] {
+                check_program(&mut rep, &name, &p, count_all, depth, max_paths, &format!("probe:{pname}/"));
+            }
+            rep.journal_end(&name);
+        }
+    }
     for i in 0..nprog {
         if !cfg.mine(i) {
             continue;
@@ -325,7 +372,7 @@ pub fn run(cfg: &Cfg) -> i32 {
         let name = format!("gen-C01-{pname}-s{}-{i}", cfg.seed);
         rep.journal_start(&name);
         rep.count(&format!("profile:{pname}"));
-        let r = std::panic::catch_unwind(std::panic::AssertUnwindSafe(|| check_program(&mut rep, &name, &p, i % 2 == 0, depth, max_paths)));
+        let r = std::panic::catch_unwind(std::panic::AssertUnwindSafe(|| check_program(&mut rep, &name, &p, i % 2 == 0, depth, max_paths, "")));
         if r.is_err() {
             rep.panic_caught("panic", json!({"program": name, "source": render::program(&p)}));
         }
